@@ -131,7 +131,7 @@ fn run_hf(out: &mut Out, mut c: Case) {
 
 	// implementation
 	let calls = Arc::new(AtomicUsize::new(0));
-	let seen = catch_unwind(AssertUnwindSafe(|| {
+	let run_impl = |calls: &Arc<AtomicUsize>, version: http::Version, method: &str, extra: bool| catch_unwind(AssertUnwindSafe(|| {
 		let layer = match &c.allow {
 			None => HostFilterLayer::disable(),
 			// entries that are socket addresses go through `TryFrom<SocketAddr>` every other time
@@ -147,7 +147,11 @@ fn run_hf(out: &mut Out, mut c: Case) {
 			},
 		};
 		let mut svc = layer.layer(Inner(calls.clone()));
-		let mut b = http::Request::builder().method("POST");
+		let mut b = http::Request::builder().method(method).version(version);
+		if extra {
+			// headers that look like an authority but are not one
+			b = b.header("x-forwarded-host", "allowed.example").header("forwarded", "host=allowed.example").header("origin", "http://allowed.example");
+		}
 		if let Some(u) = &uri {
 			b = b.uri(u.clone());
 		}
@@ -164,14 +168,35 @@ fn run_hf(out: &mut Out, mut c: Case) {
 		}
 	}))
 	.unwrap_or(Seen::Panic);
+	let seen = run_impl(&calls, http::Version::HTTP_11, "POST", false);
 	let n = calls.load(Ordering::SeqCst);
+	// the decision is a function of the authority alone: protocol version, method and other headers do not enter it
+	let mut variant_diff = None;
+	for (v, m, x) in [
+		(http::Version::HTTP_10, "POST", false),
+		(http::Version::HTTP_2, "POST", false),
+		(http::Version::HTTP_09, "GET", false),
+		(http::Version::HTTP_3, "OPTIONS", true),
+		(http::Version::HTTP_11, "GET", true),
+		(http::Version::HTTP_10, "HEAD", true),
+	] {
+		let c2 = Arc::new(AtomicUsize::new(0));
+		let s2 = run_impl(&c2, v, m, x);
+		if s2 != seen || c2.load(Ordering::SeqCst) != n {
+			variant_diff = Some(format!("{v:?} {m}{}: {s2:?} calls={} but HTTP/1.1 POST: {seen:?} calls={n}", if x { " +headers" } else { "" }, c2.load(Ordering::SeqCst)));
+			break;
+		}
+	}
 	let impl_out = match seen {
 		Seen::CfgErr => "cfgerr".to_string(),
 		Seen::Fwd => format!("fwd calls={n}"),
 		Seen::Status(s) => format!("{s} calls={n}"),
 		Seen::Panic => "panic".to_string(),
 	};
-	let verdict = oracle_hf(out, &c, seen, n);
+	let verdict = match variant_diff {
+		Some(d) => Err(format!("decision depends on something other than the authority: {d}")),
+		None => oracle_hf(out, &c, seen, n),
+	};
 	out.count(match seen {
 		Seen::CfgErr => "hf.cfgerr",
 		Seen::Fwd => "hf.forward",
